@@ -45,11 +45,19 @@ def distance_segment_to_segment(f1, f2, t1, t2):
     x4, y4 = t2
     n = ((y4 - y3) * (x2 - x1) - (x4 - x3) * (y2 - y1))
     if np.allclose([n], [0], rtol=0):
-        # parallel
-        is_parallel = True
-        n = 0.0001  # TODO: simulates a point far away
-    else:
-        is_parallel = False
+        # parallel (or a zero-length segment): the minimum is attained at an end point of one of the segments
+        best = None
+        for pt, u_t in (((x3, y3), 0.0), ((x4, y4), 1.0)):
+            pf, u_f = project((x1, y1), (x2, y2), pt)
+            d = distance(pf, pt)
+            if best is None or d < best[0]:
+                best = (d, pf, pt, u_f, u_t)
+        for pf, u_f in (((x1, y1), 0.0), ((x2, y2), 1.0)):
+            pt, u_t = project((x3, y3), (x4, y4), pf)
+            d = distance(pf, pt)
+            if d < best[0]:
+                best = (d, pf, pt, u_f, u_t)
+        return best
     u_f = ((x4 - x3) * (y1 - y3) - (y4 - y3) * (x1 - x3)) / n
     u_t = ((x2 - x1) * (y1 - y3) - (y2 - y1) * (x1 - x3)) / n
     xi = x1 + u_f * (x2 - x1)
